@@ -68,7 +68,7 @@ def check(run):
             run.sample(dict(case=c, fixed_mode=mode, exact_step=[e.tolist() for e in r[1]]))
     run.notes['fixed_subset_modes'] = modes
     # ---- (B) frame condition on recorded optimizer runs of 1..20 iterations, every outcome ----
-    behaviours = scenario.generate(run, TEMPLATES, run.seed, 500 if thorough else 80, 10, max_iters=(1, 2, 3, 5, 8, 20), tols=('0', '1e-4', '1e-1'), workers=8)
+    behaviours = scenario.generate(run, TEMPLATES, run.seed, 500 if thorough else 80, 10, max_iters=(1, 2, 3, 5, 8, 20), tols=('0', '1e-4', '1e-1'), workers=8, edits=True)
     # every outcome class is also exercised by fixed, hand-written behaviours (the TLC-generated ones depend on the seed):
     # no fixed vertex at all and fix_first_pose=False (singular solve, NaN), far initial guesses (diverging steps), long and short runs
     def opt(m, ff, tol='0'):
